@@ -290,8 +290,27 @@ def run(ctx):
             doc = gen_doc(); ctype = rnd.choice(['application/json', 'application/json; charset=UTF-8'])
         stack_out = rnd.choice(['wsgi', 'asgi']); stack_in = rnd.choice(['wsgi', 'asgi'])
         resp = (falcon.Response if stack_out == 'wsgi' else falcon.asgi.Response)()
-        resp.content_type = ctype; resp.media = doc
+        resp.content_type = ctype
         failed = None
+        if isinstance(doc, (dict, list)) and rnd.random() < 0.35:
+            # history: assign, render early (e.g. for an ETag), change the document in place, assign it again
+            ctx.count('roundtrip_reassigned_same_object')
+            if form:
+                draft = dict(doc); draft['draft'] = 'x'
+                live = draft; resp.media = live
+                early = resp.render_body() if stack_out == 'wsgi' else asyncio.run(resp.render_body())
+                live.clear(); live.update(doc)
+            elif isinstance(doc, dict):
+                live = dict(doc); live['__draft__'] = 1; resp.media = live
+                early = resp.render_body() if stack_out == 'wsgi' else asyncio.run(resp.render_body())
+                del live['__draft__']
+            else:
+                live = list(doc) + ['draft']; resp.media = live
+                early = resp.render_body() if stack_out == 'wsgi' else asyncio.run(resp.render_body())
+                live.pop()
+            resp.media = live
+        else:
+            resp.media = doc
         try:
             body = resp.render_body() if stack_out == 'wsgi' else asyncio.run(resp.render_body())
             body2 = resp.render_body() if stack_out == 'wsgi' else asyncio.run(resp.render_body())
